@@ -5,7 +5,7 @@ SPEC = {
     "streams": [
         {"name": "nodedb", "cmd": "nodedb",
          "args": {"quick": ["-cases", "40", "-pipeline-any"], "thorough": ["-cases", "1500", "-pipeline-any"]},
-         "search_args": ["-cases", "400"]},
+         "search_args": ["-cases", "400", "-pipeline-any"]},
     ],
     "trusted_base": [
         "Coq 8.16.1 kernel (coqc; coqchk in the thorough tier); no native_compute",
